@@ -243,7 +243,7 @@ func runC04(r *Report) {
 				}
 				if bo, ok := ft.Cond.(*ssa.BinOp); ok {
 					if bo.Op == token.LEQ && !ft.Pol || bo.Op == token.GTR && ft.Pol {
-						if strings.Contains(originSummary(bo.X), "GetClientID") {
+						if strings.Contains(originDeep(bo.X, 2), "GetClientID") {
 							idpos = true
 						}
 					}
@@ -255,12 +255,7 @@ func runC04(r *Report) {
 				party = n >= 2 && !other
 			}
 			// mapping looked up for the tunnel's mapping id parameter
-			mapOK := false
-			if mappingVal != nil {
-				if c, _ := CallOfValue(mappingVal); c != nil && CalleeOf(c).Name == "GetPortMapping" {
-					mapOK = originSummary(Arg(c, 0)) == "param:tunnelMappingID"
-				}
-			}
+			mapOK := mappingVal != nil && lookupKeyOrigin(mappingVal, "GetPortMapping", 2) == "param:tunnelMappingID"
 			r.Ob("R-C04-2", ret.Pos(), auth && idpos, fmt.Sprintf("attach authoriser succeeds only for an authenticated connection (IsAuthenticated %v, client id > 0 %v)", auth, idpos), "authorizeTunnelAttach", "authenticated")
 			r.Ob("R-C04-2", ret.Pos(), valid && mapOK, fmt.Sprintf("attach authoriser succeeds only if the tunnel's mapping IsValid() (%v) and it is the mapping looked up for the tunnel's mapping id (%v)", valid, mapOK), "authorizeTunnelAttach", "mapping-valid")
 			r.Ob("R-C04-2", ret.Pos(), party, "attach authoriser succeeds only if the client is the listen or target client of that mapping", "authorizeTunnelAttach", "party")
@@ -600,11 +595,45 @@ func partyOnlyPaths(start *ssa.BasicBlock, idMatch string) (eqEdges int, otherWa
 		if !ok {
 			return true
 		}
+		// a party predicate of the model (`mapping.CanBeAccessedBy(clientID)`): whenever it answers true,
+		// the id it was given equals the mapping's listen or target client
+		if c0, pol := normCond(iff.Cond, true); true {
+			if pc, isCall := stripValue(c0).(*ssa.Call); isCall {
+				if h := pc.Common().StaticCallee(); h != nil && len(h.Blocks) > 0 && h.Pkg != nil && strings.HasPrefix(h.Pkg.Pkg.Path(), Module) {
+					idParam := -1
+					for i, a := range pc.Call.Args {
+						if strings.Contains(originDeep(a, 2), idMatch) {
+							idParam = i
+						}
+					}
+					if idParam >= 0 && idParam < len(h.Params) {
+						for _, ft := range summariseHelper(h).isTrue {
+							hb, isB := ft.Cond.(*ssa.BinOp)
+							if !isB || !((hb.Op == token.EQL && ft.Pol) || (hb.Op == token.NEQ && !ft.Pol)) {
+								continue
+							}
+							ho := originSummary(hb.X) + "|" + originSummary(hb.Y)
+							if strings.Contains(ho, "param:"+h.Params[idParam].Name()) && (strings.Contains(ho, "PortMapping.ListenClientID") || strings.Contains(ho, "PortMapping.TargetClientID")) {
+								trueEdge := 1
+								if pol {
+									trueEdge = 0
+								}
+								if succ == trueEdge {
+									eqEdges++
+									return false
+								}
+								return true
+							}
+						}
+					}
+				}
+			}
+		}
 		bo, ok := iff.Cond.(*ssa.BinOp)
 		if !ok || (bo.Op != token.NEQ && bo.Op != token.EQL) {
 			return true
 		}
-		o := originSummary(bo.X) + "|" + originSummary(bo.Y)
+		o := originDeep(bo.X, 2) + "|" + originDeep(bo.Y, 2)
 		if !(strings.Contains(o, idMatch) && (strings.Contains(o, "PortMapping.ListenClientID") || strings.Contains(o, "PortMapping.TargetClientID"))) {
 			return true
 		}
@@ -619,4 +648,41 @@ func partyOnlyPaths(start *ssa.BasicBlock, idMatch string) (eqEdges int, otherWa
 		return true
 	})
 	return eqEdges, len(hits) > 0
+}
+
+// lookupKeyOrigin: v is the result of the repository lookup `name(key)`, directly or through
+// same-module helpers that hand the looked-up value back on their nil-error returns; returns the
+// origin of the key in the terms of the function v lives in ("" when v is anything else).
+func lookupKeyOrigin(v ssa.Value, name string, depth int) string {
+	c, idx := CallOfValue(v)
+	if c == nil {
+		return ""
+	}
+	if CalleeOf(c).Name == name {
+		return originSummary(Arg(c, 0))
+	}
+	h := c.Common().StaticCallee()
+	if depth <= 0 || h == nil || len(h.Blocks) == 0 || h.Pkg == nil || !strings.HasPrefix(h.Pkg.Pkg.Path(), Module) {
+		return ""
+	}
+	out := ""
+	for _, ret := range Returns(h) {
+		if RetErrKind(ret) != "nil" || idx >= len(ret.Results) {
+			continue
+		}
+		o := lookupKeyOrigin(RetVal(ret, idx), name, depth-1)
+		if o == "" {
+			return ""
+		}
+		for i, hp := range h.Params {
+			if o == "param:"+hp.Name() && i < len(c.Call.Args) {
+				o = originSummary(c.Call.Args[i])
+			}
+		}
+		if out != "" && out != o {
+			return ""
+		}
+		out = o
+	}
+	return out
 }
